@@ -4,13 +4,14 @@ from vlib import vec as V
 def cfgs_quick():
     return [V.VecCfg('small', 4, 'U8', 'ntr'), V.VecCfg('small', 3, 'U32', 'tr'), V.VecCfg('std', 0, 'U32', 'ntr', alloc=1),
             V.VecCfg('fixed', 6, 'U8', 'ntr'), V.VecCfg('small', 5, 'U16', 'tc'), V.VecCfg('std', 0, 'U64', 'tc'),
-            V.VecCfg('small', 2, 'U64', 'ntr', alloc=1), V.VecCfg('fixed', 5, 'U16', 'tr')]
+            V.VecCfg('small', 2, 'U64', 'ntr', alloc=1), V.VecCfg('fixed', 5, 'U16', 'tr'),
+            V.VecCfg('std', 0, 'U32', 'ntr', alloc=2), V.VecCfg('small', 3, 'U16', 'tr', alloc=2)]
 
 def cfgs_thorough():
     extra = [V.VecCfg('small', 1, 'U8', 'tr'), V.VecCfg('small', 8, 'U16', 'ntr'), V.VecCfg('std', 0, 'U8', 'tr'),
              V.VecCfg('std', 0, 'U16', 'ntr'), V.VecCfg('fixed', 3, 'U32', 'tc'), V.VecCfg('small', 6, 'U32', 'ntr', alloc=1),
              V.VecCfg('small', 3, 'U8', 'tc', alloc=1), V.VecCfg('fixed', 9, 'U8', 'tr'), V.VecCfg('std', 0, 'U32', 'tc', alloc=1),
-             V.VecCfg('small', 7, 'U64', 'tr')]
+             V.VecCfg('small', 7, 'U64', 'tr'), V.VecCfg('small', 2, 'U8', 'ntr', alloc=2), V.VecCfg('std', 0, 'U64', 'tc', alloc=2)]
     return cfgs_quick() + extra
 
 def cfgs(tier):
